@@ -82,35 +82,61 @@ def r1_fraction_value(rep, ctx):
 def r2_fraction(rep, ctx):
     m = ctx.model
     ci = m.cls("Fraction")
-    def body_txt(name):
-        fn = ci.methods.get(name)
-        if fn is None:
-            return None, None
-        body = [st for st in fn.node.body if not (isinstance(st, ast.Expr) and isinstance(st.value, ast.Constant))]
-        return fn, [ast.unparse(st).replace(" ", "") for st in body]
-    expect = {
-        "__add__": lambda b: "x=self.x+other.x" in b and b[-1] == "returnFraction(x.numerator,x.denominator)",
-        "__radd__": lambda b: b == ["returnself+other"],
-        "__neg__": lambda b: "x=-self.x" in b and b[-1] == "returnFraction(x.numerator,x.denominator)",
-        "__sub__": lambda b: b == ["returnself+-other"],
-        "__rsub__": lambda b: b == ["return-(self-other)"],
-        "__mul__": lambda b: any("x=Fraction(self.numerator*other.numerator,self.denominator*other.denominator)" == s for s in b) and b[-1] == "returnx",
-        "__truediv__": lambda b: b[-1] == "returnself*other.inv()",
-        "__rtruediv__": lambda b: b == ["returnself.inv()*other"],
-        "__mod__": lambda b: "x=self.x%other.x" in b and b[-1] == "returnFraction(x.numerator,x.denominator)",
-        "inv": lambda b: "x=1/self.x" in b and b[-1] == "returnFraction(x.numerator,x.denominator)",
-        "__float__": lambda b: b == ["returnfloat(self.x)"],
-        "__abs__": lambda b: b == ["returnFraction(abs(self.numerator),self.denominator)"],
-        "copy": lambda b: b == ["returnFraction(self.numerator,self.denominator)"],
-        "get_numerator": lambda b: b == ["returnself.x.numerator"],
-        "get_denominator": lambda b: b == ["returnself.x.denominator"],
+    SELF = ("self",)
+    X = ("field", "x")
+    NUM = [("field", "numerator"), ("call", ("field", "get_numerator"), (), ())]
+    DEN = [("field", "denominator"), ("call", ("field", "get_denominator"), (), ())]
+
+    def other_like(t):
+        """The other operand, possibly lifted: other | Fraction(other) | <new helper>(other) (inlined as phi)."""
+        return all(a[0] == "param" or (a[0] == "call" and a[1] == ("name", "Fraction") and len(a[2]) == 1 and a[2][0][0] == "param") for a in alternatives(t))
+
+    def oattr(t, name):
+        return t[0] == "attr" and t[2] == name and other_like(t[1])
+
+    def frac_of(t, inner):
+        """Fraction(<X>.numerator, <X>.denominator) with inner(X)."""
+        return (t[0] == "call" and t[1] == ("name", "Fraction") and len(t[2]) == 2 and t[2][0][0] == "attr" and t[2][0][2] == "numerator"
+                and t[2][1][0] == "attr" and t[2][1][2] == "denominator" and t[2][0][1] == t[2][1][1] and inner(t[2][0][1]))
+
+    def binop(t, op, a, b):
+        return t[0] == "op" and t[1] == op and len(t[2]) == 2 and a(t[2][0]) and b(t[2][1])
+
+    is_x = lambda t: t == X
+    is_self = lambda t: t == SELF
+    is_other = lambda t: all(a[0] == "param" for a in alternatives(t))
+    preds = {
+        "__add__": lambda t: frac_of(t, lambda x: binop(x, "Add", is_x, lambda y: oattr(y, "x"))),
+        "__radd__": lambda t: binop(t, "Add", is_self, is_other),
+        "__neg__": lambda t: frac_of(t, lambda x: x == ("op", "USub", (X,))),
+        "__sub__": lambda t: binop(t, "Add", is_self, lambda y: y[0] == "op" and y[1] == "USub" and is_other(y[2][0])),
+        "__rsub__": lambda t: t[0] == "op" and t[1] == "USub" and binop(t[2][0], "Sub", is_self, is_other),
+        "__mul__": lambda t: (t[0] == "call" and t[1] == ("name", "Fraction") and len(t[2]) == 2
+                              and binop(t[2][0], "Mult", lambda a: a in NUM, lambda b: oattr(b, "numerator"))
+                              and binop(t[2][1], "Mult", lambda a: a in DEN, lambda b: oattr(b, "denominator"))),
+        "__truediv__": lambda t: binop(t, "Mult", is_self, lambda y: y[0] == "call" and y[1][0] == "attr" and y[1][2] == "inv" and other_like(y[1][1]) and not y[2]),
+        "__rtruediv__": lambda t: binop(t, "Mult", lambda y: y == ("call", ("field", "inv"), (), ()), is_other),
+        "__mod__": lambda t: frac_of(t, lambda x: binop(x, "Mod", is_x, lambda y: oattr(y, "x"))),
+        "inv": lambda t: frac_of(t, lambda x: binop(x, "Div", lambda a: a == ("const", 1), is_x)),
+        "__float__": lambda t: t == ("call", ("name", "float"), (X,), ()),
+        "__abs__": lambda t: t[0] == "call" and t[1] == ("name", "Fraction") and len(t[2]) == 2 and t[2][0][0] == "call" and t[2][0][1] == ("name", "abs") and t[2][0][2][0] in NUM and t[2][1] in DEN,
+        "copy": lambda t: t[0] == "call" and t[1] == ("name", "Fraction") and len(t[2]) == 2 and t[2][0] in NUM and t[2][1] in DEN,
+        "get_numerator": lambda t: t == ("attr", X, "numerator"),
+        "get_denominator": lambda t: t == ("attr", X, "denominator"),
     }
-    for name, pred in expect.items():
-        fn, b = body_txt(name)
+    for name, pred in preds.items():
+        fn = ci.methods.get(name)
         if fn is None:
             rep.bad("C18.R2", "Fraction.%s" % name, "Fraction.%s is missing" % name, fn=ci.methods.get("__init__"))
             continue
-        rep.check(pred(b), "C18.R2", "Fraction.%s" % name, "%s applies the matching exact operation" % name, "Fraction.%s is `%s`, which is not the matching operation on the wrapped exact fraction" % (name, "; ".join(b)[:160]), fn=fn)
+        res_ = Resolver(m, fn)
+        rets = sorted((r for r in own_nodes(fn.node) if isinstance(r, ast.Return) and r.value is not None), key=lambda r: r.lineno)
+        # the result of the operation is the last return; earlier returns delegate unusual operands (`other * self`)
+        main = rets[-1] if rets else None
+        t = res_.term(main.value) if main is not None else None
+        ok = t is not None and all(pred(a) for a in alternatives(t))
+        rep.check(ok, "C18.R2", "Fraction.%s" % name, "%s applies the matching exact operation" % name,
+                  "Fraction.%s returns %s, which is not the matching operation on the wrapped exact fraction" % (name, show(t, 160) if t else None), fn=fn)
     # normalisation: the scaling loop stops when the numerator is within SMALL of round(numerator),
     # so the conversion to an integer after it must be that same rounding
     init = ci.methods.get("__init__")
